@@ -3,6 +3,10 @@
 #include "base/configwriter.hpp"
 #include "base/exception.hpp"
 #include <boost/regex.hpp>
+#include <cmath>
+#include <cstdlib>
+#include <iomanip>
+#include <sstream>
 #include <boost/algorithm/string/replace.hpp>
 #include <set>
 #include <iterator>
@@ -16,7 +20,16 @@ void ConfigWriter::EmitBoolean(std::ostream& fp, bool val)
 
 void ConfigWriter::EmitNumber(std::ostream& fp, double val)
 {
-	fp << std::fixed << val;
+	/* Six decimals as always; more only when that text would not read back as the same number. */
+	std::ostringstream buf;
+	buf << std::fixed << val;
+
+	for (int precision = 7; std::isfinite(val) && strtod(buf.str().c_str(), nullptr) != val && precision <= 1100; precision++) {
+		buf.str("");
+		buf << std::fixed << std::setprecision(precision) << val;
+	}
+
+	fp << std::fixed << buf.str();
 }
 
 void ConfigWriter::EmitString(std::ostream& fp, const String& val)
